@@ -376,7 +376,15 @@ impl<R: Read> Reader<R> {
 
         let file_size: u64 = match entry {
             RpmPayloadEntry::Cpio(ref c) => c.file_size as u64,
-            RpmPayloadEntry::Stripped(idx) => file_entries[idx as usize].size as u64,
+            RpmPayloadEntry::Stripped(idx) => file_entries
+                .get(idx as usize)
+                .map(|entry| entry.size as u64)
+                .ok_or_else(|| {
+                    io::Error::new(
+                        io::ErrorKind::InvalidData,
+                        "Stripped entry refers to a file index which is not in the header",
+                    )
+                })?,
         };
 
         Ok(Reader {
